@@ -5,6 +5,11 @@ import (
 	"encoding/binary"
 	"fmt"
 	"strings"
+	"sync"
+
+	"google.golang.org/protobuf/proto"
+
+	"github.com/tink-crypto/tink-go/v2/core/registry"
 
 	"github.com/tink-crypto/tink-go/v2/aead"
 	aeadctrhmac "github.com/tink-crypto/tink-go/v2/aead/aesctrhmac"
@@ -71,8 +76,33 @@ func be32(v uint32) []byte { var b [4]byte; binary.BigEndian.PutUint32(b[:], v);
 // ---------------------------------------------------------------------------------------------------
 // key ids
 
+const (
+	legacyEntry = "Manager.Add(template of a key-manager-only key type)"
+	legacyURL   = "type.googleapis.com/verif.c20.KeyManagerOnlyKey"
+)
+
+type legacyKM struct{}
+
+func (legacyKM) Primitive([]byte) (any, error)        { return nil, fmt.Errorf("no primitive") }
+func (legacyKM) NewKey([]byte) (proto.Message, error) { return nil, fmt.Errorf("unsupported") }
+func (legacyKM) DoesSupport(u string) bool            { return u == legacyURL }
+func (legacyKM) TypeURL() string                      { return legacyURL }
+func (legacyKM) NewKeyData([]byte) (*tinkpb.KeyData, error) {
+	return &tinkpb.KeyData{TypeUrl: legacyURL, Value: []byte{1, 2, 3, 4, 5, 6, 7, 8}, KeyMaterialType: tinkpb.KeyData_SYMMETRIC}, nil
+}
+
+var legacyKMOnce sync.Once
+
+func registerLegacyKM() {
+	legacyKMOnce.Do(func() {
+		if err := registry.RegisterKeyManager(legacyKM{}); err != nil {
+			panic(err)
+		}
+	})
+}
+
 func keyIDSection(x *h.X) {
-	entry := h.Pick(x, "entry-point", []string{"Manager.Add", "Manager.AddNewKeyFromParameters", "keyset.NewHandle", "Manager.AddKey(key without id requirement)"})
+	entry := h.Pick(x, "entry-point", []string{"Manager.Add", "Manager.AddNewKeyFromParameters", "keyset.NewHandle", "Manager.AddKey(key without id requirement)", legacyEntry})
 	variant := h.Pick(x, "template", []string{"AES128GCM(TINK)", "AES256GCM(RAW)"})
 	e := begin(x)
 	defer tape.Unbind()
@@ -89,6 +119,13 @@ func keyIDSection(x *h.X) {
 	if entry == "Manager.AddKey(key without id requirement)" && variant != "AES256GCM(RAW)" {
 		return
 	}
+	if entry == legacyEntry {
+		// a key type served only by a registry.KeyManager (no parameters parser): Manager.Add takes its legacy route
+		if variant != "AES128GCM(TINK)" {
+			return
+		}
+		registerLegacyKM()
+	}
 	rawParams, _ := aesgcm.NewParameters(aesgcm.ParametersOpts{KeySizeInBytes: 32, IVSizeInBytes: 12, TagSizeInBytes: 16, Variant: aesgcm.VariantNoPrefix})
 	fixedKey, _ := aesgcm.NewKey(secretdata.NewBytesFromData(bytes.Repeat([]byte{7}, 32), tok), 0, rawParams)
 	// add performs one id-consuming operation on km (nil: a fresh keyset through keyset.NewHandle) and returns
@@ -99,6 +136,8 @@ func keyIDSection(x *h.X) {
 		switch entry {
 		case "Manager.Add":
 			id, err = km.Add(kt)
+		case legacyEntry:
+			id, err = km.Add(&tinkpb.KeyTemplate{TypeUrl: legacyURL, OutputPrefixType: tinkpb.OutputPrefixType_TINK})
 		case "Manager.AddNewKeyFromParameters":
 			id, err = km.AddNewKeyFromParameters(params)
 		case "Manager.AddKey(key without id requirement)":
@@ -137,7 +176,7 @@ func keyIDSection(x *h.X) {
 	}
 	fieldsOf := func(id uint32, k key.Key, le bool) []field {
 		fs := []field{{"key id", idBytes(id, le)}}
-		if entry != "Manager.AddKey(key without id requirement)" {
+		if entry != "Manager.AddKey(key without id requirement)" && entry != legacyEntry {
 			fs = append(fs, field{"key material", k.(*aesgcm.Key).KeyBytes().Data(tok)})
 		}
 		return fs
